@@ -189,6 +189,10 @@ func (env *CEnv) eval(e *CExpr) V {
 		if cell, isCell := env.cells[e.Tok]; isCell {
 			// a captured variable: its value in the memory this (sub)expression is read in
 			if pt, ok := cell.Typ.Underlying().(*types.Pointer); ok {
+				if _, isStruct := pt.Elem().Underlying().(*types.Struct); isStruct {
+					// a struct variable denotes its address: name.field reads just that field
+					return cell
+				}
 				v := env.loadTyped(cell, pt.Elem())
 				if v.Typ == nil {
 					v.Typ = pt.Elem()
